@@ -38,6 +38,9 @@ JOBS = [
     Job('OSGB.GridReference', 'OSGB::GridReference', ['C18', 'C13', 'C14'], select=r'^real x', unwind=12, timeout=300,
         replace=[('OSGB::CheckCoords', dict(may_throw=True))], description='OSGB encoder',
         cases=[('p%d' % k, 'in_prec == %d' % k) for k in range(0, 12)] + [('p_out', 'in_prec < 0 || in_prec > 11')]),
+    Job('OSGB.GridReference_rev.nospace', 'OSGB::GridReference', ['C18', 'C13'], select=r'^const', cname='OSGB_GridReference_rev', contract_name='OSGB_GridReference_rev_nospace',
+        replace=[LOOKUP], unwind=30, strcap=29, timeout=900, sat='cadical',
+        description='OSGB decoder on strings without white space (fully unwound: bounded): accepts exactly two letters + an even number of digits up to 22, precision = half of them'),
     Job('OSGB.GridReference_rev', 'OSGB::GridReference', ['C18', 'C13', 'C14'], select=r'^const', cname='OSGB_GridReference_rev',
         unwind=13, strcap=64, timeout=300, replace=[LOOKUP], description='OSGB decoder'),
     # ---- MGRS (C05)
